@@ -6,6 +6,7 @@ package PKGNAME
 
 import (
 	"fmt"
+	"os"
 	"time"
 )
 
@@ -130,3 +131,16 @@ func symQuiesce() int {
 func symYield() { verifSleep() }
 
 func verifSleep() { time.Sleep(20 * time.Millisecond) }
+
+// symSetFile / symGetFile: a file the code under test reads or writes. Under symgo a virtual
+// file system; natively real files.
+func symSetFile(path, content string) {
+	if err := os.WriteFile(path, []byte(content), 0o644); err != nil {
+		panic("verif: cannot write " + path + ": " + err.Error())
+	}
+}
+
+func symGetFile(path string) (string, bool) {
+	b, err := os.ReadFile(path)
+	return string(b), err == nil
+}
